@@ -32,6 +32,8 @@ class FrontGen:
         self.nsvc = 0
         self.budget = 14
         self.chains = []                # token lists of the unparenthesised expressions
+        self.lit_pool = {}
+        self.twins = {}
         self.structs = {}
 
     # ---- structs ---------------------------------------------------------------------
@@ -43,7 +45,17 @@ class FrontGen:
             for j in range(r.randint(1, 4)):
                 attrs.append(("a%d" % j, r.choice(ATTR_TYPES)))
             out.append({"name": "Extra%d" % i, "attrs": attrs})
+        # struct definitions with identical attribute lists under different names: literals of
+        # both can then have the same body text
+        if r.random() < 0.6:
+            for base in r.sample(out, r.randint(1, 2)):
+                out.append({"name": base["name"] + "Twin", "attrs": list(base["attrs"])})
         self.structs = {s["name"]: s for s in out}
+        self.twins = {}
+        for s in out:
+            if s["name"].endswith("Twin"):
+                self.twins[s["name"]] = s["name"][:-4]
+                self.twins[s["name"][:-4]] = s["name"]
         return out
 
     def paths_of(self, sname, want):
@@ -74,7 +86,17 @@ class FrontGen:
         return ("obj", [(n, self.lit_value(ty, depth + 1)) for n, ty in self.structs[p]["attrs"]])
 
     def literal(self, sname):
-        return ("lit", sname, self.lit_value(("plain", sname)))
+        """a literal of struct sname; bodies are reused: the same body appears again for the
+        same type at another call site, and for a struct with the same attribute list"""
+        r = self.rng
+        sig = repr(self.structs[sname]["attrs"])
+        pool = self.lit_pool.setdefault(sig, [])
+        if pool and r.random() < 0.5:
+            body = r.choice(pool)
+        else:
+            body = self.lit_value(("plain", sname))
+            pool.append(body)
+        return ("lit", sname, body)
 
     # ---- expressions -----------------------------------------------------------------
     def num_atom(self, vars_):
@@ -239,6 +261,8 @@ class FrontGen:
             a = self.arg_for(ty, vars_, loopvars)
             if a is not None:
                 out.append(a)
+                if a[0] == "lit" and a[1] in self.twins and r.random() < 0.5:
+                    out.append(("lit", self.twins[a[1]], a[2]))
         return out
 
     def fresh_outs(self, vars_, force_d):
@@ -425,9 +449,14 @@ def stats(prog):
     """input distribution counters"""
     c = {"structs": len(prog["structs"]), "tasks": len(prog["tasks"]), "stmts": 0, "depth": 0, "literals": 0,
          "params": 0, "exprs": 0, "service": 0, "call": 0, "parallel": 0, "while": 0, "count": 0, "parloop": 0,
-         "cond": 0, "call_outs": 0, "array_types": 0, "mixed_param_lists": 0}
+         "cond": 0, "call_outs": 0, "array_types": 0, "mixed_param_lists": 0,
+         "literal_bodies_repeated_same_type": 0, "literal_bodies_shared_by_types": 0,
+         "programs_with_shared_literal_body": 0}
+
+    lits = []
 
     def params(ins, outs):
+        lits.extend((p[1], repr(p[2])) for p in ins if p[0] == "lit")
         c["params"] += len(ins)
         c["literals"] += sum(1 for p in ins if p[0] == "lit")
         kinds = {p[0] == "lit" for p in ins}
@@ -466,4 +495,10 @@ def stats(prog):
     for t in prog["tasks"]:
         c["array_types"] += sum(1 for _, ty in t["ins"] if ty[0] == "array")
         walk(t["body"], 1)
+    bodies = {}
+    for n, b in lits:
+        bodies.setdefault(b, []).append(n)
+    c["literal_bodies_repeated_same_type"] = sum(1 for ns in bodies.values() if len(ns) > len(set(ns)))
+    c["literal_bodies_shared_by_types"] = sum(1 for ns in bodies.values() if len(set(ns)) > 1)
+    c["programs_with_shared_literal_body"] = 1 if any(len(ns) > 1 for ns in bodies.values()) else 0
     return c
